@@ -529,7 +529,7 @@ func runWHChild(c *Ctx, rule string) {
 	for _, path := range u.TC {
 		short := strings.TrimPrefix(path, "uni/")
 		add := u.Func(path, "ParquetWriter.Add")
-		inner := u.Func(path, "newParquetWriter")
+		inner := roleFunc(u, path, "writerInner")
 		if add == nil || inner == nil {
 			r.failf("%s: Add / newParquetWriter missing in %s", rule, path)
 			continue
